@@ -238,6 +238,12 @@ func (g *evGen) numExpr(d int) string {
 	case 5:
 		g.note("toDecimal")
 		return g.anyScalar(d-1) + ".toDecimal()"
+	case 7:
+		g.note("power")
+		if g.r.Intn(3) == 0 {
+			return g.anyScalar(d-1) + ".power(" + g.intExpr(d-1) + ")"
+		}
+		return g.intExpr(d-1) + ".power(" + Pick(g.r, []string{"0", "1", "2", "3", "5", "15", "16", "30", "31", "32", "33", "(-1)", "(-2)", "2147483647", "%e", "%i", "%i.first()", "46341", "2147483646"}) + ")"
 	case 6:
 		g.note("round")
 		switch g.r.Intn(4) {
@@ -412,6 +418,8 @@ var evOdd = []string{
 	"%e.now()", "%i.today()", "%i.select(now())", "%i.where(today() = today())", "now(1)", "today({})", "now().toTime()", "now() is DateTime", "today() is Date", "timeOfDay() is Time", "now().toDateTime() = now()", "%t.select($this < today())", "%dt.select($this < now())", "%tm.select($this < timeOfDay())", "now().count()", "iif(now() = now(), 1, 2)",
 	"%s.join()", "%s.join(', ')", "%s.join('')", "%e.join()", "%e.join(',')", "%e.join(%unknown)", "%i.join()", "%m.join(',')", "'a'.join()", "'abc'.toChars().join('-')", "'héllo'.toChars().join('')", "%s.join(%e)", "%s.join(%s)", "%s.join(1)", "%s.join(',', ';')",
 	"%s.join(', ').length()", "%s.select($this.toChars().join('.'))", "%s2.join('x') = %s2.first()", "%s.tail().join('|')", "%s.join({})", "%s.where($this.length() > 1).join('+')", "%s.join('\\n')", "('a' & 'b').toChars().join()", "1.toString().toChars().join(',')",
+	"2.power(10)", "2.power(30)", "2.power(31)", "(-2).power(31)", "(-2).power(32)", "2.power(-1)", "0.power(0)", "0.power(5)", "0.power(-1)", "1.power(2147483647)", "(-1).power(2147483647)", "(-1).power(2147483646)", "3.power(2147483647)", "46340.power(2)", "46341.power(2)", "(-46341).power(2)",
+	"2.power(%e)", "%e.power(2)", "%i.power(2)", "2.power(%i)", "2.power('a')", "'a'.power(2)", "true.power(2)", "2.power(true)", "%e.power(%unknown)", "2.power(%unknown)", "2.power(1, 2)", "2.power()", "%i.select($this.power(2))", "%i.select($this.power($this))", "10.power(9)", "10.power(10)", "(2.power(10) + 1).power(3)",
 	"@2020 + 1", "1 + @2020", "@2020 + @2021", "@2020 * 2 days", "@2020 / 0", "2 days + @2020", "@2020 - @2019", "@T10 + 1 day", "@T23:30 + 1 hour", "@T00:30 - 1 hour", "@T10 + 90 minutes", "@T10:30 + 30 seconds",
 	"@2020-01-31 + 1 month", "@2020-02-29 + 1 year", "@2020-02-29 - 4 years", "@2020-02-29 + 100 years", "@2020-03-31 - 1 month", "@2020 + 11 months", "@2020 + 12 months", "@2020-01 + 45 days", "@2020-01-01 + 1 hour", "@2020-01-01 + 1.5 days", "@2020-01-01 + 1 'mg'", "@2020-01-01 + 1 'd'",
 	"@2020-01-31T10:00:00+05:30 + 1 month", "@2019-12-31T23:30:00-03:30 + 1 hour", "@2020-02-29T10:30 + 36 hours", "@2020-02-29T10 + 90 minutes", "@2020T + 1 day", "@2020-02-29T10:30:00 + 500 milliseconds", "@2020-02-29T10:30:00.000 + 1 millisecond", "@2020-02-29T10:30:00Z - 1 second",
